@@ -5573,6 +5573,9 @@ class CodegenCtx:
             ctx = IntegerExprUseContext.ASSIGN_INITIAL
         elif is_end:
             ctx = IntegerExprUseContext.ASSIGN_ON_END
+        if isinstance(action, (CustomFinishAction, FinishAction)) and transition is not None and not is_end and self._transition_advances_early(transition):
+            # like DONE, a finish leaves the start pointer on the last character read
+            result.add("--(*start);" if ProgramData.do(ProgramFlag.INDIRECT_START_PTR) else "--start;")
         if isinstance(action, CustomFinishAction):
             result.add(f"return {self.program_name.upper()}_FINISH_{action.result_code};")
         elif isinstance(action, FinishAction):
